@@ -397,10 +397,7 @@ func (ps *pipeScenario) run(c *vk.Case, o runOpts) *pipeRun {
 				}
 				if len(dc.cursorIns) > 0 {
 					// the first block written is the lowest block served as data in this step
-					lo := dc.cursorIns[0].num
-					if n, ok := lastHashLookup(res.Served); ok && n+1 <= lo {
-						lo = n + 1
-					}
+					lo := firstBlockOf(pm.start, res.Served, dc.cursorIns[0].num)
 					if first == 0 || lo < first {
 						first = lo
 					}
